@@ -1,3 +1,4 @@
+use super::field_utils::parse_party_identifier;
 use super::swift_utils::{parse_bic, parse_swift_chars};
 use crate::errors::ParseError;
 use crate::traits::SwiftField;
@@ -108,9 +109,10 @@ impl SwiftField for Field58D {
         // Party identifier can be on its own line (starting with /)
         // If first line is short and there are more lines, it's likely a party identifier
         if let Some(first_line) = lines.first() {
-            // Party identifier should start with / and be short (≤35 chars to account for the /)
-            if first_line.starts_with('/') && first_line.len() <= 35 && lines.len() > 1 {
+            // [/1!a][/34x]: up to 37 characters, checked by parse_party_identifier
+            if first_line.starts_with('/') && lines.len() > 1 {
                 // Entire first line is party identifier (strip the leading / format prefix)
+                parse_party_identifier(first_line)?;
                 party_identifier = Some(first_line[1..].to_string());
                 lines.remove(0);
             }
@@ -120,7 +122,9 @@ impl SwiftField for Field58D {
         let mut name_and_address = Vec::new();
         for (i, line) in lines.iter().enumerate() {
             if i >= 4 {
-                break;
+                return Err(ParseError::InvalidFormat {
+                    message: "Field 58D cannot have more than 4 name/address lines".to_string(),
+                });
             }
             if line.len() > 35 {
                 return Err(ParseError::InvalidFormat {
